@@ -201,7 +201,7 @@ fn session(w: &mut World, src: &mut dyn StepSource, trace: &mut Vec<Step>, max_s
     }
     let end;
     {
-        let mut s = Session { fs: &fs, dirs: vec![Some(DirH { d: fs.root_dir(), node: ROOT })], files: vec![] };
+        let mut s = Session { fs: &fs, dirs: vec![Some(DirH { d: fs.root_dir(), node: ROOT, via: None })], files: vec![] };
         loop {
             if trace.len() >= max_steps {
                 end = SessionEnd::Finished;
@@ -291,7 +291,7 @@ fn drop_handles_to(s: &mut Session, node: NodeId) {
         }
     }
     for (i, d) in s.dirs.iter_mut().enumerate() {
-        if i != 0 && d.as_ref().map_or(false, |h| h.node == node) {
+        if i != 0 && d.as_ref().map_or(false, |h| h.node == node || h.via == Some(node)) {
             *d = None;
         }
     }
@@ -354,6 +354,14 @@ fn ancestors(m: &Model, n: NodeId, out: &mut Outcome) {
             out.touch_paths.push(m.path_of(c).iter().map(|s| s.encode_utf16().collect()).collect());
         }
         cur = m.nodes[c].parent;
+    }
+}
+
+fn base_touch(s: &Session, m: &Model, slot: u8, out: &mut Outcome) {
+    if let Some(Some(h)) = s.dirs.get(slot as usize) {
+        if let Some(v) = h.via {
+            ancestors(m, v, out);
+        }
     }
 }
 
@@ -455,7 +463,7 @@ pub fn exec_step(w: &mut World, s: &mut Session, step: &Step) -> Result<(), Viol
         _ => None,
     };
     if let Some(n) = victim {
-        let has = s.files.iter().flatten().any(|h| h.node == n) || s.dirs.iter().enumerate().any(|(i, d)| i != 0 && d.as_ref().map_or(false, |h| h.node == n));
+        let has = s.files.iter().flatten().any(|h| h.node == n) || s.dirs.iter().enumerate().any(|(i, d)| i != 0 && d.as_ref().map_or(false, |h| h.node == n || h.via == Some(n)));
         if has {
             w.parsed()?;
             w.disk.borrow_mut().arm(FaultPlan { budget: 2_000_000, ..FaultPlan::default() });
@@ -494,6 +502,7 @@ pub fn exec_step(w: &mut World, s: &mut Session, step: &Step) -> Result<(), Viol
             let Some(bh) = dir_of(s, *base) else { return Ok(()) };
             let bnode = bh.node;
             out.mutating = true;
+            base_touch(s, &w.model, *base, &mut out);
             path_touch(&w.model, bnode, path, &mut out);
             let mut errs = vec![];
             let mut parent = None;
@@ -545,7 +554,7 @@ pub fn exec_step(w: &mut World, s: &mut Session, step: &Step) -> Result<(), Viol
                         refresh_alias(w, node)?;
                     }
                     if let Some(k) = keep {
-                        put(&mut s.dirs, *k, DirH { d: dh, node });
+                        put(&mut s.dirs, *k, DirH { d: dh, node, via: None });
                     }
                 }
             } else {
@@ -578,6 +587,7 @@ pub fn exec_step(w: &mut World, s: &mut Session, step: &Step) -> Result<(), Viol
         Op::OpenFile { base, path, slot } => {
             let Some(bh) = dir_of(s, *base) else { return Ok(()) };
             let bnode = bh.node;
+            base_touch(s, &w.model, *base, &mut out);
             path_touch(&w.model, bnode, path, &mut out);
             let mut errs = vec![];
             let target = match w.model.resolve(bnode, path) {
@@ -608,6 +618,7 @@ pub fn exec_step(w: &mut World, s: &mut Session, step: &Step) -> Result<(), Viol
         Op::OpenDir { base, path, slot } => {
             let Some(bh) = dir_of(s, *base) else { return Ok(()) };
             let bnode = bh.node;
+            base_touch(s, &w.model, *base, &mut out);
             path_touch(&w.model, bnode, path, &mut out);
             let mut errs = vec![];
             let target = match w.model.resolve(bnode, path) {
@@ -627,13 +638,18 @@ pub fn exec_step(w: &mut World, s: &mut Session, step: &Step) -> Result<(), Viol
             check_outcome(w, &format!("open_dir({:?})", path), &out.res, &errs, false, false)?;
             if let (Ok(dh), Some(n)) = (r, target) {
                 if *slot != 0 {
-                    put(&mut s.dirs, *slot, DirH { d: dh, node: n });
+                    // a path ending in ".." yields a Dir that writes its time stamps back into the ".." slot of the
+                    // directory it was reached from: it is a reference into that directory
+                    let comps = model::components(path);
+                    let via = if *comps.last().unwrap() == ".." { w.model.walk_parent(bnode, path).ok().map(|x| x.0) } else { None };
+                    put(&mut s.dirs, *slot, DirH { d: dh, node: n, via });
                 }
             }
         }
         Op::List { base } => {
             let Some(bh) = dir_of(s, *base) else { return Ok(()) };
             let bnode = bh.node;
+            base_touch(s, &w.model, *base, &mut out);
             ancestors(&w.model, bnode, &mut out);
             let r = lib!({
                 let mut names: Vec<(Vec<u16>, bool, u64)> = vec![];
@@ -703,6 +719,7 @@ pub fn exec_step(w: &mut World, s: &mut Session, step: &Step) -> Result<(), Viol
             let Some(bh) = dir_of(s, *base) else { return Ok(()) };
             let bnode = bh.node;
             out.mutating = true;
+            base_touch(s, &w.model, *base, &mut out);
             path_touch(&w.model, bnode, path, &mut out);
             let mut errs = vec![];
             let target = match w.model.resolve(bnode, path) {
@@ -743,6 +760,8 @@ pub fn exec_step(w: &mut World, s: &mut Session, step: &Step) -> Result<(), Viol
             let (Some(sh), Some(dh)) = (dir_of(s, *sbase), dir_of(s, *dbase)) else { return Ok(()) };
             let (snode, dnode) = (sh.node, dh.node);
             out.mutating = true;
+            base_touch(s, &w.model, *sbase, &mut out);
+            base_touch(s, &w.model, *dbase, &mut out);
             path_touch(&w.model, snode, spath, &mut out);
             path_touch(&w.model, dnode, dpath, &mut out);
             let mut errs = vec![];
